@@ -20,7 +20,7 @@ RULE = ("continuous and grid worlds, wrapping and not; 0-8 agents on a coarse la
 COMPONENTS = {"real": ["ECAgent.Environments.SpaceWorld.get_agents_at", "add_agent / move / move_to / remove_agent"],
               "stub": ["agents are plain ECAgent agents created by the harness"]}
 PROBES = ["axis_leeway_larger", "general_leeway_larger", "negative_leeway", "empty_answer", "coincident_agents",
-          "query_outside_world", "seam_crossing_box", "agent_on_face", "wrap_world", "moved_since_placement", "rejected_duplicate_add"]
+          "query_outside_world", "seam_crossing_box", "agent_on_face", "wrap_world", "moved_since_placement", "rejected_duplicate_add", "model_lifecycle_op"]
 TECHNIQUE = "deterministic simulation: positional queries inside seeded move/remove histories vs an exact geometric filter (seam-aware in wrapping worlds)"
 LEVEL_TEXT = ("Seeded search over placements, move histories and query boxes; every answer must equal, as an ordered id list, an "
               "exact geometric filter over the reference positions (distance around the seam in wrapping worlds); the query "
@@ -50,6 +50,7 @@ def gen_leeways(rng, ref):
 
 def generate(rng, tier):
     world = gen_world(rng, kinds=("space", "space", "discrete", "line", "grid"), subunit=0.12)
+    world["attached"] = rng.random() < 0.8
     ref = RefWorld(world)
     n = rng.randint(0, 12 if tier == "thorough" else 8)
     ops = []
@@ -64,8 +65,10 @@ def generate(rng, tier):
             ops.append({"op": "move", "k": rng.randrange(n), "d": [rng.randint(-3, 3) * step for _ in range(3)]})
         elif r < 0.85:
             ops.append({"op": "move_to", "k": rng.randrange(n), "p": [lattice(rng, ref, ax, 0) for ax in range(3)]})
-        elif r < 0.93:
+        elif r < 0.92:
             ops.append({"op": "remove", "k": rng.randrange(n)})
+        elif r < 0.935:
+            ops.append({"op": "lifecycle", "k": 0, "what": rng.choice(["step", "complete"])})
         else:
             ops.append({"op": "add", "k": rng.randrange(n), "p": [lattice(rng, ref, ax, 0) for ax in range(3)]})
             if rng.random() < 0.5:
@@ -181,6 +184,9 @@ def execute(sc, ctx):
             ctx.expect_ok("move_to", env.move_to, a, *ref.real(p))
             pos[k] = list(p)
             moved.add(k)
+        elif kind == "lifecycle":
+            ctx.expect_ok("lifecycle", m.complete if op["what"] == "complete" else m.execute)
+            ctx.probe("model_lifecycle_op")
         elif kind == "remove":
             if k not in pos:
                 continue
